@@ -935,6 +935,8 @@ unsigned int CppCheck::checkInternal(const FileWithDetails& file, const std::str
     const int maxConfigs = mSettings.getMaxConfigs();
 
     mLogger->resetExitCode();
+    // the unique errors are per check() call - some code paths below return without resetting them
+    mLogger->clear();
 
     if (Settings::terminated())
         return mLogger->exitcode();
